@@ -87,6 +87,21 @@ func source(p *harness.Pool, side string, a agreement, prev *agreement) nodeenro
 	return serverSide(p, a, prev)
 }
 
+// idProducer is an application-supplied key producer: the agreement of the
+// wrapped value under a key id of the application's choice (the interface
+// documents that an empty id is "simply unused").
+type idProducer struct {
+	nodeenrollment.X25519KeyProducer
+	id string
+}
+
+func (p idProducer) X25519EncryptionKey() (string, []byte, error) {
+	_, k, err := p.X25519KeyProducer.X25519EncryptionKey()
+	return p.id, k, err
+}
+
+var customIds = []string{"", "id-a", "id-b"}
+
 func other(side string) string {
 	if side == "node" {
 		return "server"
@@ -132,13 +147,15 @@ func message(kind, size string, seed int64) (proto.Message, proto.Message) {
 		m := &types.WrappingRegistrationFlowInfo{}
 		if n > 0 {
 			m.Nonce, m.CertificatePublicKeyPkix = blob[:32], blob
-			m.ApplicationSpecificParams = harness.Struct(map[string]any{"a": "b", "n": 1.5})
+			// (single-entry maps only: protobuf marshals map entries in random
+			// order, and the envelopes must be the same bytes in every run)
+			m.ApplicationSpecificParams = harness.Struct(map[string]any{"a": []any{"b", 1.5}})
 		}
 		return m, new(types.WrappingRegistrationFlowInfo)
 	default:
 		m := &structpb.Struct{}
 		if n > 0 {
-			m = harness.Struct(map[string]any{"blob": string(bytes.Repeat([]byte("x"), n)), "nested": map[string]any{"k": []any{1.0, "two", nil}}})
+			m = harness.Struct(map[string]any{"v": []any{string(bytes.Repeat([]byte("x"), n)), map[string]any{"k": []any{1.0, "two", nil}}}})
 		}
 		return m, new(structpb.Struct)
 	}
@@ -203,6 +220,21 @@ func mutate(ct []byte, mut string) []byte {
 	panic("unknown mutation " + mut)
 }
 
+// zeroed returns the envelope with the same structure and lengths but all
+// ciphertext, IV and HMAC bytes zero.
+func zeroed(ct []byte) []byte {
+	bi := new(wrapping.BlobInfo)
+	if err := proto.Unmarshal(ct, bi); err != nil {
+		panic(err)
+	}
+	bi.Ciphertext, bi.Iv, bi.Hmac = make([]byte, len(bi.Ciphertext)), make([]byte, len(bi.Iv)), make([]byte, len(bi.Hmac))
+	out, _ := proto.Marshal(bi)
+	if len(out) != len(ct) {
+		panic("c11: zeroed envelope changed length")
+	}
+	return out
+}
+
 func mutClass(mut string) string {
 	if i := strings.Index(mut, ":"); i > 0 {
 		return mut[:i]
@@ -238,12 +270,41 @@ func one(p *harness.Pool, k kase, r *engine.Report) (string, string) {
 	var ct []byte
 	var err error
 	if pm := guard(func() {
-		ct, err = nodeenrollment.EncryptMessage(ctx, msg, source(p, k.Side, k.Sender, nil), nodeenrollment.WithRandomReader(harness.DetRand("enc-iv")))
+		sender := k.Sender
+		if k.Kind == "custom-id" {
+			sender.K = 0 // there the K fields index customIds; the envelope is rebuilt below
+		}
+		ct, err = nodeenrollment.EncryptMessage(ctx, msg, source(p, k.Side, sender, nil), nodeenrollment.WithRandomReader(harness.DetRand("enc-iv")))
 	}); pm != "" {
 		return "encrypt:panic", "EncryptMessage panicked: " + pm
 	}
 	if err != nil {
 		return "encrypt:error", fmt.Sprintf("EncryptMessage failed: %v", err)
+	}
+	if k.Kind == "custom-id" {
+		// same shared secret on both sides; only the key ids of the two producers vary
+		si, ri := customIds[k.Sender.K], customIds[k.Recv.K]
+		snd := idProducer{source(p, k.Side, agreement{k.Sender.N, k.Sender.S, 0}, nil), si}
+		rcv := idProducer{source(p, other(k.Side), agreement{k.Sender.N, k.Sender.S, 0}, nil), ri}
+		ct, err = nodeenrollment.EncryptMessage(ctx, msg, snd, nodeenrollment.WithRandomReader(harness.DetRand("enc-iv")))
+		if err != nil {
+			return "encrypt:error", fmt.Sprintf("EncryptMessage with key id %q failed: %v", si, err)
+		}
+		if pm := guard(func() { err = nodeenrollment.DecryptMessage(ctx, ct, rcv, blank) }); pm != "" {
+			return "decrypt:panic:custom-id", "DecryptMessage panicked: " + pm
+		}
+		switch {
+		case si == ri && (err != nil || !proto.Equal(msg, blank)):
+			return "roundtrip:fails:custom-id", fmt.Sprintf("sender and receiver key id %q, same secret: round trip failed: %v", si, err)
+		case si != ri && err == nil:
+			return "binding:key-id:custom-id", fmt.Sprintf("a message sealed under key id %q opened for a receiver whose key id is %q (same shared secret)", si, ri)
+		}
+		if si == ri {
+			r.Branch("opened-with-current-key")
+		} else {
+			r.Branch("rejected-wrong-key-id")
+		}
+		return "", ""
 	}
 	recvSrc := source(p, other(k.Side), k.Recv, k.Prev)
 	switch k.Kind {
@@ -265,6 +326,15 @@ func one(p *harness.Pool, k kase, r *engine.Report) (string, string) {
 			return "binding:" + strings.ReplaceAll(what, " ", "-") + ":" + k.Kind, fmt.Sprintf("sender %v -> receiver %v prev %v: decryption succeeded with a different %s", k.Sender, k.Recv, k.Prev, what)
 		}
 		if want {
+			// the same envelope into a result that still holds another message
+			// (one buffer reused for successive messages): the result is the
+			// sent message, nothing of what was there before
+			for _, osz := range sizes {
+				dirty, _ := message(k.Msg, osz, k.Seed+1)
+				if err := nodeenrollment.DecryptMessage(ctx, ct, source(p, other(k.Side), k.Recv, k.Prev), dirty); err != nil || !proto.Equal(msg, dirty) {
+					return "roundtrip:reused-result:" + k.Kind, fmt.Sprintf("sender %v -> receiver %v prev %v: decrypting a %s/%s message into a result that held a %s one gives a different message (err %v)", k.Sender, k.Recv, k.Prev, k.Msg, k.Size, osz, err)
+				}
+			}
 			if k.Prev != nil && !matches(k.Sender, k.Recv) {
 				r.Branch("opened-with-previous-key")
 			} else {
@@ -279,8 +349,13 @@ func one(p *harness.Pool, k kase, r *engine.Report) (string, string) {
 			r.Outcome("trivial")
 			return "", ""
 		}
-		// a mutated envelope is non-trivial if it still reaches the AEAD open
-		if bi := new(wrapping.BlobInfo); proto.Unmarshal(mct, bi) != nil || len(bi.Ciphertext) < 12 {
+		// a mutated envelope is non-trivial if it still reaches the AEAD open.
+		// The envelope's random bytes (the dependency draws its own IV) differ
+		// from run to run and, after a flip in a tag byte, can decide whether
+		// the rest still parses; the classification is therefore made on a
+		// copy whose ciphertext and IV bytes are zeroed, so that the count is
+		// the same in every run.
+		if bi := new(wrapping.BlobInfo); proto.Unmarshal(mutate(zeroed(ct), k.Mut), bi) != nil || len(bi.Ciphertext) < 12 {
 			r.Outcome("trivial")
 		}
 		if pm := guard(func() { err = nodeenrollment.DecryptMessage(ctx, mct, recvSrc, blank) }); pm != "" {
@@ -315,6 +390,16 @@ func cases(c *engine.Ctx, p *harness.Pool, emit func(kase)) {
 					for _, b := range allAgreements {
 						emit(kase{Kind: "pair", Msg: mk, Size: sz, Side: side, Sender: a, Recv: b, Seed: c.Seed})
 					}
+				}
+			}
+		}
+	}
+	// application-supplied producers: same secret, key ids from {"", a, b} on either side
+	for _, side := range []string{"node", "server"} {
+		for n := 0; n < 2; n++ {
+			for si := range customIds {
+				for ri := range customIds {
+					emit(kase{Kind: "custom-id", Msg: "NodeCredentials", Size: "typical", Side: side, Sender: agreement{n, n, si}, Recv: agreement{n, n, ri}, Seed: c.Seed})
 				}
 			}
 		}
@@ -437,7 +522,7 @@ func init() {
 	engine.Register(&engine.CheckDef{
 		ID:    "C11",
 		Level: "exploration",
-		Rule: "product of 8 key agreements (2 node keys x 2 server keys x 2 key ids) on the sending and receiving side, both directions, 5 message types x 3 sizes; every receiver current x previous combination (512 per direction); for one envelope per message kind/size every single-bit flip, every truncation length, every BlobInfo with a ciphertext of 0..40 bytes, field deletions, and every byte string of length 1 and 2 as envelope; " +
+		Rule: "product of 8 key agreements (2 node keys x 2 server keys x 2 key ids) on the sending and receiving side, both directions, 5 message types x 3 sizes; every receiver current x previous combination (512 per direction); every successful open repeated into a result object that still holds another message of each size; application-supplied key producers with key ids from {empty, a, b} on either side of one secret; for one envelope per message kind/size every single-bit flip, every truncation length, every BlobInfo with a ciphertext of 0..40 bytes, field deletions, and every byte string of length 1 and 2 as envelope; " +
 			"distinct_nontrivial counts cases (distinct by construction) other than mutated envelopes that no longer parse as a BlobInfo with at least a nonce (those die before the AEAD open and only exercise the no-crash clause)",
 		Assumptions: []string{"cryptographic strength of X25519 and AES-GCM is trusted; 'forged' means produced with other pool keys or by mutation", "random multi-byte mutations are not enumerated (all single-bit flips and truncations are)"},
 		Shards:      func(c *engine.Ctx) int { return 16 },
